@@ -1,0 +1,8 @@
+//go:build !verif
+
+package main
+
+import "io"
+
+// verifIO is a no-op unless built with the "verif" tag (see ls_verif_on.go).
+func verifIO() (io.Reader, io.Writer, io.Closer) { return nil, nil, nil }
